@@ -1,18 +1,26 @@
 P = "github.com/tochemey/goakt/v4/actor."
+SHAPES = [1, 2, 3, 4, 5, 6]
 CHECK = {
     "id": "C13",
     "packages": ["./actor"],
     "harness": ["actor/zz_verif_c13.go"],
     "entries": [
-        {"fn": P + "vC13_history3", "tiers": ("x",), "cases": {"prefix": [0]}},
-        {"fn": P + "vC13_history4", "tiers": ("quick",), "cases": {"prefix": [0]}},
-        {"fn": P + "vC13_suffix3", "tiers": ("quick",), "cases": {"prefix": [1, 2, 3, 4, 5, 6]}},
+        {"fn": P + "vC13_history4", "tiers": ("quick",), "cases": {"prefix": [0]}, "cover_optional": ("unstashAll-many",)},
+        # the shared context pool may hit or miss at any time (other actors use it concurrently)
+        {"fn": P + "vC13_history3", "cases": {"prefix": [0]}, "opts": {"select_precise": False},
+         "cover_optional": ("unstashAll-many", "both-nonempty-at-end")},
+        {"fn": P + "vC13_suffix2", "tiers": ("quick",), "cases": {"prefix": SHAPES}},
         {"fn": P + "vC13_history5", "tiers": ("thorough",), "cases": {"prefix": [0]}},
-        {"fn": P + "vC13_suffix4", "tiers": ("thorough",), "cases": {"prefix": [1, 2, 3, 4, 5, 6]}},
+        {"fn": P + "vC13_suffix3", "tiers": ("thorough",), "cases": {"prefix": SHAPES}},
         {"fn": P + "vC13_nobuffer"},
+        {"fn": P + "vC13_dbg", "tiers": ("x",)},
     ],
     "replace": [{"file": "actor/pools.go", "old": "const contextPoolSize = 8192", "new": "const contextPoolSize = 2"}],
-    "opts": {"unwind": 12},
+    # no loop-feasibility queries (each costs ~0.5 s here): loops run to their concrete bound, or to the stated bound whose
+    # unwinding assertion is an obligation
+    "opts": {"unwind": 12, "feas_from_iter": 1000, "select_precise": True,
+             "loop_bounds": {"(*" + P + "PID).unstashAll": 5}},
+    "timeout_ms": {"quick": 240000, "thorough": 1800000},
     "explanation": "TODO",
     "bounds": {},
 }
